@@ -95,6 +95,10 @@ func workloads(r *vlib.Run) []Workload {
 	ws = append(ws, Workload{Name: "save-priority", Free: true, SaveFirst: true, Shape: "save", Ops: []Op{skip(0),
 		blk("A1", "", 2, "f1"), idle, blk("A2", "", 1, "A1.0"), idle, blk("A3", "", 0), idle, closeOp}})
 	if r.Thorough() {
+		// failed reorganisation: B2 double-spends f3 (already spent by B1); found out only when B3 triggers MoveToBlock
+		ws = append(ws, Workload{Name: "failed-reorg", Free: true, Shape: "failed-reorg", Ops: []Op{skip(0),
+			blk("A1", "", 2, "f1"), blk("A2", "", 1, "f2"), idle, wait,
+			blk("B1", "base", 1, "f3"), blk("B2", "B1", 1, "f3"), idle, blk("B3", "B2", 0), idle, blk("A3", "A2", 0), idle, closeOp}})
 		ws = append(ws,
 			Workload{Name: "reorg-no-save", Model: true, Shape: "reorg-before-any-save", Ops: []Op{skip(100),
 				blk("A1", "", 2, "f1"), idle, blk("B1", "base", 1, "f1"), blk("B2", "B1", 1, "B1.0"), idle, blk("A2", "A1", 0), blk("A3", "A2", 1, "A1.1"), idle, closeOp}},
@@ -724,7 +728,9 @@ func main() {
 		fmt.Fprintln(os.Stderr, err)
 		os.Exit(3)
 	}
-	defer os.RemoveAll(root)
+	if os.Getenv("C07_KEEP") == "" {
+		defer os.RemoveAll(root)
+	}
 	h := &Harness{r: r, root: root}
 	// gocoin prints progress with fmt.Print and println: silence fd 1 and 2 while the real code runs
 	o1, _ := syscall.Dup(1)
@@ -739,7 +745,9 @@ func main() {
 	h.run()
 	syscall.Dup3(o1, 1, 0)
 	syscall.Dup3(o2, 2, 0)
-	os.RemoveAll(root)
+	if os.Getenv("C07_KEEP") == "" {
+		os.RemoveAll(root)
+	}
 	r.Finish("one case = one (workload, crash point, re-open mode) or one (workload, truncation length): the data directory captured at that instant is re-opened by a fresh process; distinct = distinct (workload, point name, hit index, mode); non-trivial = the directory differs from the previous capture or the point lies inside a multi-step update",
 		h.explanation())
 }
